@@ -276,6 +276,104 @@ func c05NilErr(c *Ctx, r *Report) {
 	r.floor("C05.NILERR", "call sites of CoerceOut", n, 3)
 }
 
+// rangedTableStrings: e is the value variable of a `for _, v := range table` loop in fd, where table is a
+// package-level array or slice declared with a literal of constant strings and written nowhere else: the
+// strings of the table.
+func (c *Ctx) rangedTableStrings(fd *ast.FuncDecl, e ast.Expr) []string {
+	id, ok := ast.Unparen(e).(*ast.Ident)
+	if !ok {
+		return nil
+	}
+	info := c.P.TypesInfo
+	obj := info.Uses[id]
+	if obj == nil {
+		return nil
+	}
+	var table *types.Var
+	ast.Inspect(fd.Body, func(n ast.Node) bool {
+		rs, ok := n.(*ast.RangeStmt)
+		if !ok || rs.Value == nil {
+			return true
+		}
+		vid, ok := rs.Value.(*ast.Ident)
+		if !ok || info.Defs[vid] != obj {
+			return true
+		}
+		if xid, ok := ast.Unparen(rs.X).(*ast.Ident); ok {
+			if tv, ok := info.Uses[xid].(*types.Var); ok && tv.Parent() == c.P.Types.Scope() {
+				table = tv
+			}
+		}
+		return true
+	})
+	if table == nil {
+		return nil
+	}
+	// written only by its declaration
+	if g, ok := c.SP.Members[table.Name()].(*ssa.Global); ok {
+		for _, fn := range c.allFns {
+			for _, b := range fn.Blocks {
+				for _, in := range b.Instrs {
+					if st, ok := in.(*ssa.Store); ok && rootGlobal(st.Addr) == g {
+						return nil
+					}
+				}
+			}
+		}
+	} else {
+		return nil
+	}
+	var out []string
+	for _, f := range c.P.Syntax {
+		for _, d := range f.Decls {
+			gd, ok := d.(*ast.GenDecl)
+			if !ok || gd.Tok != token.VAR {
+				continue
+			}
+			for _, sp := range gd.Specs {
+				vs := sp.(*ast.ValueSpec)
+				for i, nm := range vs.Names {
+					if info.Defs[nm] != types.Object(table) || i >= len(vs.Values) {
+						continue
+					}
+					cl, ok := vs.Values[i].(*ast.CompositeLit)
+					if !ok {
+						return nil
+					}
+					for _, el := range cl.Elts {
+						if kv, ok := el.(*ast.KeyValueExpr); ok {
+							el = kv.Value
+						}
+						s, ok := c.constString(el)
+						if !ok {
+							return nil
+						}
+						out = append(out, s)
+					}
+				}
+			}
+		}
+	}
+	return out
+}
+
+// rootGlobal: the package-level variable an address is inside of.
+func rootGlobal(v ssa.Value) *ssa.Global {
+	for i := 0; i < 8; i++ {
+		switch t := v.(type) {
+		case *ssa.Global:
+			return t
+		case *ssa.FieldAddr:
+			v = t.X
+		case *ssa.IndexAddr:
+			v = t.X
+		default:
+			return nil
+		}
+	}
+	return nil
+}
+
 func c05Kind(c *Ctx, r *Report) {
 	// enum values built by the constructors
 	enumVals := func(ctor string) map[string]bool {
@@ -297,6 +395,10 @@ func c05Kind(c *Ctx, r *Report) {
 					if k, _ := kv.Key.(*ast.Ident); k != nil && k.Name == "Value" {
 						if s, ok := c.constString(kv.Value); ok {
 							out[s] = true
+						} else {
+							for _, s := range c.rangedTableStrings(fd, kv.Value) {
+								out[s] = true
+							}
 						}
 					}
 				}
